@@ -1,6 +1,6 @@
 (* Dispatcher used by both evaluation routes (vm_compute in cases.v, extracted runner). *)
 From Coq Require Import String List Bool.
-From HV Require Import Base.Sexp Model.DepKeys Model.Merge Model.Validate Model.Ref Model.Completion Model.BodyQueries Model.Signature Model.Hover Model.Collect Model.Snippet Model.Json Model.Origins Model.OriginsBody Model.ValueTargets Model.TargetsBody Model.ValueTokens Model.Links Model.ValueHover Model.FuncCands Model.HookCands Model.TypeHover Model.ValueCands Model.HoverData.
+From HV Require Import Base.Sexp Model.DepKeys Model.Merge Model.Validate Model.Ref Model.Completion Model.BodyQueries Model.Signature Model.Hover Model.Collect Model.Snippet Model.Json Model.Origins Model.OriginsBody Model.ValueTargets Model.TargetsBody Model.ValueTokens Model.Links Model.ValueHover Model.FuncCands Model.HookCands Model.TypeHover Model.ValueCands Model.HoverData Model.AttrDetail.
 Import ListNotations.
 Open Scope string_scope.
 
@@ -13,6 +13,7 @@ Definition run_kind (kind : string) (args : list sexp) : option sexp :=
   else if String.eqb kind "signatures" then run_signatures args
   else if String.eqb kind "ecd" then run_ecd args
   else if String.eqb kind "ehd" then run_ehd args
+  else if String.eqb kind "attrhover" then run_attr_hover args
   else if String.eqb kind "hovers" then run_hovers args
   else if String.eqb kind "tokens" then run_tokens args
   else if String.eqb kind "symbols" then run_symbols args
